@@ -53,6 +53,8 @@ pub struct Scenario {
     pub cq: Option<u32>,
     /// Before anything is dropped a further descriptor was closed with `AsyncFd::close()`.
     pub closed_fd: bool,
+    /// Before anything is dropped the standard stream handles were created and dropped.
+    pub stdio: bool,
 }
 
 #[derive(Clone, Copy, Debug, PartialEq, Eq, Hash)]
@@ -183,6 +185,14 @@ impl C12World {
             self.direct = op.held.borrow_mut().pop();
             self.direct_origin = Some(s);
             talloc::track(|| drop(op));
+        }
+        if sc.stdio {
+            let sq = self.sq.as_ref().unwrap().clone();
+            talloc::track(|| {
+                drop(a10::io::stdin(sq.clone()));
+                drop(a10::io::stdout(sq.clone()));
+                drop(a10::io::stderr(sq));
+            });
         }
         if sc.closed_fd {
             // An explicit close, run to completion: afterwards nothing of that descriptor may be left.
@@ -547,7 +557,7 @@ pub fn scenarios(quick: bool) -> Vec<Scenario> {
     use Kind::*;
     use OpState::*;
     let mut v = Vec::new();
-    let base = Scenario { ops: vec![], sq_clone: false, direct_fd: false, pool: false, buf_owned: false, buf_fresh: false, sync_cancel: SyncCancelMode::All, sqpoll: false, sq: 8, cq: None, closed_fd: false };
+    let base = Scenario { ops: vec![], sq_clone: false, direct_fd: false, pool: false, buf_owned: false, buf_fresh: false, sync_cancel: SyncCancelMode::All, sqpoll: false, sq: 8, cq: None, closed_fd: false, stdio: false };
     // One operation in every state, with and without the other object kinds.
     let single: Vec<(Kind, OpState)> = vec![
         (ReadVec, NotStarted),
@@ -591,6 +601,9 @@ pub fn scenarios(quick: bool) -> Vec<Scenario> {
             }
         }
     }
+    // Standard stream handles used (and dropped) on the ring.
+    v.push(Scenario { stdio: true, ..base.clone() });
+    v.push(Scenario { ops: vec![(WriteVec, Queued)], stdio: true, direct_fd: true, ..base.clone() });
     // A descriptor closed explicitly before the teardown.
     v.push(Scenario { closed_fd: true, ..base.clone() });
     v.push(Scenario { ops: vec![(ReadVec, InFlight)], closed_fd: true, sq_clone: true, ..base.clone() });
